@@ -8,6 +8,11 @@ from .. import gen, canon
 from ..common import short
 
 LEVEL = "exploration"
+TECHNIQUE = "runtime monitoring: exception trap + logical step budget (sys.monitoring) + skeleton oracle over generated hostile inputs"
+LEVEL_TEXT = ("Held on the executions produced: every generated (input, builder, namespacing, document|fragment, container, "
+              "scripting, source kind) case ran under an exception trap and a logical step budget, and every document was "
+              "checked against the skeleton oracle by direct traversal. Pathological depth families go past the recursion "
+              "limit for every element role; this is exploration, not proof.")
 BUDGET_S = {"quick": 45, "thorough": 600}
 RULE = ("cases = (input, source kind, builder, namespacing, document|fragment+container, scripting) drawn from "
         "pathological depth/length families (deterministic), markup soup, structure-aware misnesting, random str "
